@@ -82,9 +82,12 @@ class RuleCtx:
             return site.qualname, site.relfile, site.node.lineno
         return str(site), "", 0
 
-    def ok(self, site, what, role="", nontrivial=True, **sample):
+    def ok(self, site, what, role="", nontrivial=True, line=0, expected="", found="", **sample):
         q, f, l = self._site(site)
-        self.obls.append(Obligation(self.rd.property_id, self.rd.rid, self.rd.kind, q, "ok", what, f, l, role,
+        if hasattr(line, "lineno"):
+            line = line.lineno
+        self.obls.append(Obligation(self.rd.property_id, self.rd.rid, self.rd.kind, q, "ok", what, f, line or l, role,
+                                    str(expected)[:400], str(found)[:400] if found else (str(expected)[:400] if expected else ""),
                                     nontrivial=nontrivial, sample=_jsonable(sample) or None))
 
     def fail(self, site, what, line=0, role="", expected="", found="", **sample):
@@ -96,7 +99,7 @@ class RuleCtx:
 
     def check(self, cond: bool, site, what, line=0, role="", expected="", found="", **sample):
         if cond:
-            self.ok(site, what, role=role, **sample)
+            self.ok(site, what, role=role, line=line, expected=expected, found=found if found else "", **sample)
         else:
             self.fail(site, what, line=line, role=role, expected=expected, found=found, **sample)
         return cond
